@@ -6,6 +6,7 @@ package rtgen
 import (
 	"net/http"
 	"net/http/httptest"
+	"regexp"
 	"sort"
 	"strings"
 
@@ -63,15 +64,10 @@ var Methods = []string{"GET", "POST", "PUT", "PATCH", "DELETE", "HEAD", "OPTIONS
 // FullPath is the plain concatenation the statement talks about (group prefixes then path).
 func (g RegT) FullPath() string { return strings.Join(g.Groups, "") + g.Path }
 
-// effective constraints in the order RegisterRoute hands them to the tree: the typed ones (a map, so
-// one per name — a later typed call on the same name replaces the earlier; shipped sorted by name),
-// then the Where ones in call order.
-type effCons struct {
-	Name string
-	C    route.Constraint
-}
-
-func effective(cs []ConsT) []effCons {
+// effectiveSpec lists the constraints in force on a route in the order RegisterRoute hands them to the
+// engines (typed ones: one per name, the last call wins, sorted by name; then the Where ones in call
+// order) — without going through the repository's conversion of typed constraints to regular expressions.
+func effectiveSpec(cs []ConsT) []ConsT {
 	typed := map[string]ConsT{}
 	var where []ConsT
 	for _, c := range cs {
@@ -86,36 +82,81 @@ func effective(cs []ConsT) []effCons {
 		names = append(names, n)
 	}
 	sort.Strings(names)
-	var out []effCons
+	out := make([]ConsT, 0, len(cs))
 	for _, n := range names {
-		c := typed[n]
-		pc := route.ParamConstraint{}
-		switch c.Kind {
-		case "int":
-			pc.Kind = route.ConstraintInt
-		case "float":
-			pc.Kind = route.ConstraintFloat
-		case "uuid":
-			pc.Kind = route.ConstraintUUID
-		case "date":
-			pc.Kind = route.ConstraintDate
-		case "datetime":
-			pc.Kind = route.ConstraintDateTime
-		case "enum":
-			pc.Kind = route.ConstraintEnum
-			pc.Enum = strings.Split(c.Arg, "|")
-		case "regex":
-			pc.Kind = route.ConstraintRegex
-			pc.Pattern = c.Arg
-		}
-		if rc := pc.ToRegexConstraint(n); rc != nil {
-			out = append(out, effCons{n, *rc})
+		out = append(out, typed[n])
+	}
+	return append(out, where...)
+}
+
+var (
+	reFloat    = regexp.MustCompile(`^-?(?:\d+\.?\d*|\.\d+)(?:[eE][+-]?\d+)?$`)
+	reDateTime = regexp.MustCompile(`^\d{4}-\d{2}-\d{2}T\d{2}:\d{2}:\d{2}(?:\.\d+)?(?:Z|[+-]\d{2}:\d{2})$`)
+)
+
+func isDigits(s string) bool {
+	if s == "" {
+		return false
+	}
+	for i := 0; i < len(s); i++ {
+		if s[i] < '0' || s[i] > '9' {
+			return false
 		}
 	}
-	for _, c := range where {
-		out = append(out, effCons{c.Name, route.ConstraintFromPattern(c.Name, c.Arg)})
+	return true
+}
+
+func isHex(s string) bool {
+	for i := 0; i < len(s); i++ {
+		c := s[i]
+		if !(c >= '0' && c <= '9' || c >= 'a' && c <= 'f' || c >= 'A' && c <= 'F') {
+			return false
+		}
 	}
-	return out
+	return true
+}
+
+// Meaning is the documented meaning of a constraint as a predicate on the parameter value, written
+// here from the documentation of the Where* methods — NOT taken from route.ToRegexConstraint: int = one or
+// more decimal digits, uuid = RFC 4122 text form with version 1–5 and variant 8/9/a/b, date = dddd-dd-dd,
+// enum = exact membership, float/datetime = the documented grammars. Only the user's own patterns
+// (WhereRegex, Where) go through Go's regexp, anchored at both ends as documented.
+func Meaning(c ConsT) func(string) bool {
+	switch c.Kind {
+	case "int":
+		return isDigits
+	case "float":
+		return reFloat.MatchString
+	case "uuid":
+		return func(s string) bool {
+			if len(s) != 36 || s[8] != '-' || s[13] != '-' || s[18] != '-' || s[23] != '-' {
+				return false
+			}
+			if !isHex(s[0:8]) || !isHex(s[9:13]) || !isHex(s[14:18]) || !isHex(s[19:23]) || !isHex(s[24:36]) {
+				return false
+			}
+			return s[14] >= '1' && s[14] <= '5' && strings.ContainsRune("89abAB", rune(s[19]))
+		}
+	case "date":
+		return func(s string) bool {
+			return len(s) == 10 && s[4] == '-' && s[7] == '-' && isDigits(s[0:4]) && isDigits(s[5:7]) && isDigits(s[8:10])
+		}
+	case "datetime":
+		return reDateTime.MatchString
+	case "enum":
+		members := strings.Split(c.Arg, "|")
+		return func(s string) bool {
+			for _, m := range members {
+				if s == m {
+					return true
+				}
+			}
+			return false
+		}
+	default: // "regex" (typed) and "where": the user's own pattern, anchored
+		re := regexp.MustCompile("^" + c.Arg + "$")
+		return re.MatchString
+	}
 }
 
 func applyCons(rt *route.Route, cs []ConsT) {
@@ -345,16 +386,16 @@ func InputTokens(l *hx.Line, c CaseT, ask []string) {
 	l.Bool(c.NoRoute).Nat(len(c.Script))
 	type cref struct {
 		id int
-		c  route.Constraint
+		ok func(string) bool
 	}
 	var all []cref
 	for _, g := range c.Script {
 		l.Str(g.Method).Strs(g.Groups).Str(g.Path)
-		eff := effective(g.Cons)
+		eff := effectiveSpec(g.Cons)
 		l.Nat(len(eff))
 		for _, e := range eff {
 			id := len(all)
-			all = append(all, cref{id, e.C})
+			all = append(all, cref{id, Meaning(e)})
 			l.Str(e.Name).Nat(id)
 		}
 	}
@@ -375,7 +416,7 @@ func InputTokens(l *hx.Line, c CaseT, ask []string) {
 	l.Nat(len(all) * len(vs))
 	for _, cr := range all {
 		for _, v := range vs {
-			l.Nat(cr.id).Str(v).Bool(cr.c.Pattern.MatchString(v))
+			l.Nat(cr.id).Str(v).Bool(cr.ok(v))
 		}
 	}
 	l.Str(c.Req.Method).Str(c.Req.Path).Strs(ask)
